@@ -3,6 +3,7 @@
    "generated kernel = hand-written model function" are closed by the tactics below. *)
 From Coq Require Import List ZArith Bool Reals Lra Lia ZifyBool Psatz.
 From QModel Require Import Num.
+From QModel Require Observables.
 From QTheory Require Import RInst.
 Import ListNotations.
 
@@ -213,6 +214,20 @@ Ltac tie_req :=
 Ltac tie_cplx :=
   repeat match goal with x : (R * R)%type |- _ => destruct x end;
   cbn [fst snd]; unfold Rsqr; tie_comp; tie_req.
+
+(* ---- region writes (harness/srctie.py, PairTr):  x[:, A] = y[:, A]  is  bmerge A y x ---- *)
+Fixpoint bmerge (A : list bool) (y x : list bool) : list bool :=
+  match A, x, y with
+  | a :: A', xh :: x', yh :: y' => (if a then yh else xh) :: bmerge A' y' x'
+  | _, _, _ => x
+  end.
+Lemma swap_mask_bmerge (A : list bool) : forall s1 s2 : list bool,
+  QModel.Observables.swap_mask A s1 s2 = (bmerge A s2 s1, bmerge A s1 s2).
+Proof.
+  induction A as [|a A IH]; intros s1 s2; [destruct s1, s2; reflexivity|].
+  destruct s1 as [|x s1], s2 as [|y s2]; try reflexivity.
+  cbn [QModel.Observables.swap_mask bmerge]. rewrite IH. destruct a; reflexivity.
+Qed.
 
 Definition zgrid : list Z := [-3; -2; -1; 0; 1; 2; 3; 4; 5; 6; 7; 10; 12]%Z.
 Definition ngrid : list nat := [0; 1; 2; 3; 4; 5; 6; 7; 10; 12]%nat.
